@@ -36,6 +36,8 @@ GetClass or EnumerateClass methods.
 For documentation, see mocksupport.rst.
 """
 
+from copy import deepcopy
+
 from pywbem import CIMError, CIM_ERR_INVALID_PARAMETER, CIM_ERR_NOT_FOUND, \
     CIM_ERR_INVALID_SUPERCLASS, CIMParameter, CIMMethod, CIMProperty
 from pywbem._utils import _format
@@ -270,13 +272,29 @@ class ResolverMixin:  # pylint: disable=too-few-public-methods
         # of that loop.
         for obj_name, obj in superclass_objects.items():
             if obj_name not in new_objects:
-                new_obj = obj.copy()
+                new_obj = deepcopy(obj)
                 new_obj.propagated = True
                 assert obj.class_origin
                 new_obj.class_origin = obj.class_origin
-                for qualifier in new_obj.qualifiers.values():
-                    qualifier.propagated = True
+                self._propagate_qualifiers(new_obj.qualifiers)
+                if isinstance(new_obj, CIMMethod):
+                    for param in new_obj.parameters.values():
+                        self._propagate_qualifiers(param.qualifiers)
                 new_objects[obj_name] = new_obj
+
+    @staticmethod
+    def _propagate_qualifiers(qualifiers):
+        """
+        Process the qualifiers of an element that is inherited without being
+        redefined in the new class: Qualifiers with flavor Restricted
+        (tosubclass=False) apply only to the class that specified them and are
+        removed, the other qualifiers are marked as propagated.
+        """
+        for qname, qualifier in list(qualifiers.items()):
+            if qualifier.tosubclass is False:
+                del qualifiers[qname]
+            else:
+                qualifier.propagated = True
 
     def _set_new_object(self, new_obj, inherited_obj, new_class, superclass,
                         qualifier_store, propagated, type_str):
